@@ -58,3 +58,21 @@ Proof.
   apply Hfold. now left.
 Qed.
 Print Assumptions C01_pass_produces_partial.
+
+(* ---- the plain sequential configuration, for EVERY initial pool population and schedule (Proofs/TraverseAvail.v) ---- *)
+From I2N Require Import Proofs.TraverseAvail.
+
+(* With one worker, no bridged copies, no state marked for removal, no permanent-object install, the own and shared
+   pools in scope (simple_b, evaluated on the exported single-worker graphs): in the state right after the atomic
+   section that starts an execution of test i, every state that an ordinary own parent of i sets is in the worker's
+   own pool or the shared pool - unless that parent has results and none of them is a PASS (it was attempted and did
+   not pass).  The statement for several workers is false (known findings). *)
+Theorem C01_available_at_start_single_worker : forall g p sched out i u pre l par,
+  simple_b g = true -> Forall (fun x => fst x = 0) sched ->
+  let r := run_schedule g (init_state g p) (sched ++ [(0, out)]) in
+  In (EStart 0 i u pre l) (last (snd r) []) ->
+  In par (n_parents (nd g i)) -> plain g par -> own g 0 par = true ->
+  (forall x, In x (setstates (nd g par)) -> vis (fst r) x = true) \/
+  (results (nst (fst r) par) <> [] /\ forall res, In res (results (nst (fst r) par)) -> r_status res <> SPass).
+Proof. exact available_at_start_b. Qed.
+Print Assumptions C01_available_at_start_single_worker.
